@@ -9,7 +9,7 @@ PROP = dict(
     assumptions=['no two distinct positions met share a 64-bit hash (Canonical compares boards by hash)'],
 )
 MANIFEST = dict(
-    text="Coq (Properties/C15.v, 16 obligations, closed under the global context), all three theorems of DESIGN 5.15 for the model of symmetry.Canonical with the "
+    text="Coq (Properties/C15.v, 22 obligations, closed under the global context), all three theorems of DESIGN 5.15 for the model of symmetry.Canonical with the "
          "real hash basis: (1) canonical_legal_images - when Canonical returns cs for ms, cs has the length of ms and for every k the first k "
          "moves of cs and of ms are legal games by Rules.v from the start position, the canonical one ending in one of the eight images of the "
          "other (so the input is legal too); (2) canonical_class_invariant - it then returns the same cs for each of the eight images of ms; "
@@ -20,7 +20,11 @@ MANIFEST = dict(
          "loop computes the preferMove-minimum over exactly the stabiliser of board 0 (a group; preferMove a strict total order on an orbit), "
          "C14's rules_equivariant, C01's preservation theorems and C08's equal_complete. Nothing is assumed about the boards for sizes 3..6 "
          "(at most 64 pieces); for sizes 7, 8 the exact limit of the bit representation (no stack above 64 on the boards produced) is a "
-         "hypothesis. Concrete 5x5 and 8x8 games with two rotations satisfy the hypotheses. "
+         "hypothesis. Concrete 5x5 and 8x8 games with two rotations satisfy the hypotheses. For sizes 3..6 NoCollision is also given as a statement "
+         "about Position.Hash and Position.Equal only (CanonGame.v: nocoll_pe_trace - a board whose hash equals board 0's is Position.Equal to it - "
+         "implies the semantic form, because the eight boards are replays from tak.New of the same number of moves, i.e. positions of one game "
+         "with the same ply counter, where Position.Equal identifies only equal records: C06's cinv_equal_sim); the three theorems and "
+         "canonical_total are restated with it (the _game forms), and the 5x5 example satisfies it. "
          "Execution: model of symmetry.Canonical (eight replay boards, rots prepend, compose last-applied-first, preferMove) compared with "
          "the implementation on every generated game; an independent Go oracle checks the three clauses of the property with its own symmetry maps, "
          "exhaustively for all short games on 3x3/4x4.",
@@ -28,5 +32,5 @@ MANIFEST = dict(
                           'differential + independent class-invariance / idempotence oracle (exhaustive on short games)',
     note="Trusted: Coq kernel, extraction, transcription of Canonical. Also proved: Canonical accepts every legal game (canonical_total), so class "
          "invariance holds in the form `legal ms -> canonical (image of ms) = canonical ms`. Hypotheses that remain, all explicit: NoCollision on "
-         "the hashes compared; for sizes 7, 8 no stack above 64 on the boards produced (the representation limit of the code, C01). symmetry.Canonical takes a board size and always replays from tak.New(Config{Size}): there is no configuration to carry over (C15_start_is_zero_config: the model's start position is FromSquares at the zero configuration of TpsCfg.v), unlike symmetry.Symmetries (C14). The model's "
+         "the hashes compared (sizes 3..6: in the plain form equal Hash => Position.Equal among the eight boards); for sizes 7, 8 no stack above 64 on the boards produced (the representation limit of the code, C01). symmetry.Canonical takes a board size and always replays from tak.New(Config{Size}): there is no configuration to carry over (C15_start_is_zero_config: the model's start position is FromSquares at the zero configuration of TpsCfg.v), unlike symmetry.Symmetries (C14). The model's "
          "Position.Move rejects Pass (the real code accepts it): games with a Pass are outside the theorems, as in C01.")
